@@ -69,6 +69,13 @@ def guards_at(body, target):
                 elif st.get('k') == 'if' and st.get('else') is not None and _always_exits(st.get('else')) \
                         and not _always_exits(st.get('then')):
                     out.append((st.get('cond'), True, st))
+                elif st.get('k') == 'block':
+                    # a bare nested scope that can only be left normally when its early exits were not taken
+                    for inner in st.get('body', []):
+                        if inner.get('k') == 'assert':
+                            out.append((inner.get('cond'), True, inner))
+                        elif inner.get('k') == 'if' and inner.get('else') is None and _always_exits(inner.get('then')):
+                            out.append((inner.get('cond'), False, inner))
         elif k == 'if':
             if nxt is n.get('then'):
                 out.append((n.get('cond'), True, n))
